@@ -90,7 +90,12 @@ func setNodeKey(ctx context.Context, key string) context.Context {
 	if !existed || len(path.path) == 0 {
 		return context.WithValue(ctx, nodePathKey{}, NewNodePath(key))
 	}
-	return context.WithValue(ctx, nodePathKey{}, NewNodePath(append(path.path, key)...))
+	// siblings extend the same parent path: each of them gets its own copy, appending in place
+	// would let them share (and overwrite) the spare capacity of the parent's slice
+	nPath := make([]string, len(path.path)+1)
+	copy(nPath, path.path)
+	nPath[len(path.path)] = key
+	return context.WithValue(ctx, nodePathKey{}, NewNodePath(nPath...))
 }
 
 func getStateModifier(ctx context.Context) StateModifier {
